@@ -322,6 +322,12 @@ def run_checked(tier):
     lay_stats = {}
     lay_fails, lay_cov = enumlayout.run_layout(PID, tier, d, lay_stats)
     fails += lay_fails
+    # 5. the same for the self-tail-recursion rewrite and the execution of loops: spec/TailRec.tla transcribes the rewrite
+    #    next to the recursive semantics (TLC: every small body), every body is compiled and its printed lines are judged
+    import tailrec
+    tr_fails, tr_cov = tailrec.run_tailrec(PID, tier, outdir("tailrec"), lay_stats)
+    fails += tr_fails
+    lay_cov.update(tr_cov)
     repo_src = tally.by_source.get("repo", {})
     evaluator_undecided = sum(v for k, v in tally.tool.items() if k != "no-artefact")
     coverage = {
@@ -358,7 +364,13 @@ def run_checked(tier):
 def replay(path):
     case = json.load(open(path))
     d = outdir(PID)
-    if case.get("kind") == "enum-layout":       # a declaration set of EnumLayout.tla: the program prints every value
+    if case.get("kind") == "typerules-term":
+        import typerules
+        return typerules.replay(path)
+    if case.get("kind") == "tailrec":           # a body of TailRec.tla: judged by the source semantics (Semantics.tla)
+        prog = case["case"]["program"]
+        p = {"origin": "tailrec", "entry": "Main", "sources": {"Main": prog} if isinstance(prog, str) else prog.get("sources", prog)}
+    elif case.get("kind") == "enum-layout":       # a declaration set of EnumLayout.tla: the program prints every value
         p = {"origin": "layout:" + json.dumps(case["case"]["decl"], sort_keys=True), "entry": "Main",
              "sources": {"Main": case["case"]["program"]}}
     else:
